@@ -90,12 +90,12 @@ func (p *Path) ensureInit(pkg *ssa.Package) {
 		p.pkgInit[pkg] = 2
 		return
 	}
+	p.eng.buildPkg(pkg)
 	initFn := pkg.Func("init")
 	if initFn == nil || initFn.Blocks == nil {
 		p.pkgInit[pkg] = 2
 		return
 	}
-	p.eng.buildPkg(pkg)
 	p.inInit++
 	func() {
 		defer func() {
